@@ -594,6 +594,24 @@ func bigDelta(g *cff.Glyph) (definitely, maybe bool) {
 	return
 }
 
+// over32000 reports whether some path operand of the glyph exceeds 32000 in
+// magnitude.
+func over32000(g *cff.Glyph) bool {
+	var x, y float64
+	for _, c := range g.Cmds {
+		if c.Op != cff.OpMoveTo && c.Op != cff.OpLineTo && c.Op != cff.OpCurveTo {
+			continue
+		}
+		for k := 0; k < len(c.Args); k += 2 {
+			if math.Abs(c.Args[k]-x) > 32000 || math.Abs(c.Args[k+1]-y) > 32000 {
+				return true
+			}
+			x, y = c.Args[k], c.Args[k+1]
+		}
+	}
+	return false
+}
+
 func near(a, b float64) bool { return math.Abs(a-b) <= ulp }
 
 // cmpRef compares the interpreted charstring with the glyph it was made from.
@@ -835,6 +853,11 @@ func check(fc *fontCase) verdict {
 		return v
 	}
 	for gi, g := range f.Glyphs {
+		if over32000(g) && stats.IsListed("C05", "operand-above-32000") {
+			// the decoder's clamp of path operands at +-32000 is a listed C05 finding
+			stats.Excluded("C05/operand-above-32000")
+			continue
+		}
 		if err := cmpRead(g, back.Glyphs[gi]); err != nil {
 			v.fail = fmt.Sprintf("glyph %d (charstring %x): cff.Read of the written font gives a different glyph: %v", gi, file.CharStrings[gi], err)
 			return v
